@@ -639,4 +639,7 @@ VARIANTS += [
     fire('r10-spacing-follow-line-endings', ['C17'], [(SP, "def _find_spacing(", "def _follow_line_endings(model: base.RawModel, text: str) -> str:\n    if model.token_store is None or '\\n' not in text:\n        return text\n    for token in model.token_store:\n        if isinstance(token, Newline):\n            if token.raw_text.endswith('\\r\\n'):\n                return re.sub(r'(?<!\\r)\\n', '\\r\\n', text)\n            break\n    return text\n\n\ndef _find_spacing("), (SP, "        self.raw_spacing_before = tuple(_text_to_tokens(value))", "        self.raw_spacing_before = tuple(_text_to_tokens(_follow_line_endings(self, value)))")], 'SP-ROUTE'),
     fire('r10-spacing-trailing-blanks-as-indent', ['C17'], [(SP, "from ..spacing import Newline, Whitespace\n", "from ..spacing import Newline, Whitespace\nfrom .registry import TOKEN_MODELS\n"), (SP, "    for whitespace, newline in _SPACING_GROUP_RE.findall(text):\n        if whitespace:\n            yield Whitespace.from_raw_text(whitespace)", "    groups = _SPACING_GROUP_RE.findall(text)\n    for i, (whitespace, newline) in enumerate(groups):\n        if whitespace:\n            if 0 < i == len(groups) - 1 and groups[i - 1][1]:\n                yield TOKEN_MODELS['INDENT'].from_raw_text(whitespace)\n            else:\n                yield Whitespace.from_raw_text(whitespace)")], 'SP-ROUTE'),
     silent('r10-twin-spacing-classes-from-registry', ['C17'], [(SP, "from ..spacing import Newline, Whitespace\n", "from ..spacing import Newline, Whitespace\nfrom .registry import TOKEN_MODELS\n"), (SP, "            yield Whitespace.from_raw_text(whitespace)", "            yield TOKEN_MODELS['WHITESPACE'].from_raw_text(whitespace)")]),
+    fire('r10-tree-indent2-not-handled', ['C01'], [(PA, "            elif is_tree and child.data in ('indent', 'indent2'):", "            elif is_tree and child.data in ('indent',):")], 'GRAM-REG'),
+    fire('r10-tree-helper-looks-at-token-text', ['C01', 'C05'], [(PA, "    def _build_tree(self, tree: lark.Tree) -> models.RawTreeModel:", "    @staticmethod\n    def _is_helper(node: lark.Token | lark.Tree) -> bool:\n        name = node.data if isinstance(node, lark.Tree) else str(node)\n        return name.endswith('_')\n\n    def _build_tree(self, tree: lark.Tree) -> models.RawTreeModel:"), (PA, "            elif is_tree and child.data.endswith('_'):", "            elif self._is_helper(child):")], 'TREE-SEM'),
+    silent('r10-twin-tree-helper-for-dropped-rules', ['C01', 'C05'], [(PA, "    def _build_tree(self, tree: lark.Tree) -> models.RawTreeModel:", "    @staticmethod\n    def _is_helper(node: lark.Token | lark.Tree) -> bool:\n        return isinstance(node, lark.Tree) and node.data.endswith('_')\n\n    def _build_tree(self, tree: lark.Tree) -> models.RawTreeModel:"), (PA, "            elif is_tree and child.data.endswith('_'):", "            elif self._is_helper(child):"), (PA, "            if not (isinstance(child, lark.Tree) and child.data.endswith('_'))\n        ]", "            if not self._is_helper(child)\n        ]")]),
 ]
